@@ -78,8 +78,14 @@ class DB:
     def open(self):
         return self.cmd("open %s/db %d" % (self.dir, self.mem_kb), timeout=60)
 
-    def sql(self, text, timeout=20.0):
-        return self.cmd("sql " + text, timeout)
+    def sql(self, text, timeout=20.0, retries=3):
+        """one auto-commit statement; an 'aborted' answer is retried, as the engine's own front end (ExecuteSQL) does"""
+        r = self.cmd("sql " + text, timeout)
+        while r == "aborted" and retries > 0:
+            self.naborted = getattr(self, "naborted", 0) + 1
+            retries -= 1
+            r = self.cmd("sql " + text, timeout)
+        return r
 
     def restart_process(self):
         """Kill the harness process (a real crash: nothing flushed, files left as they are) and start a new one."""
